@@ -13,7 +13,7 @@ from harness.common import traffic_syms, gt_sets, sym_slots
 PROPERTY = "C19"
 LEVEL = "model_checking"
 UNCONFIRMED_OK = True   # a difference seen only under an explored set order is a candidate; see DESIGN §5 C19
-BOUNDS = {"hours_per_series": "N=2", "skeletons": "T2, T3, T5, T9 and a two-device/two-job variant",
+BOUNDS = {"hours_per_series": "N=2", "skeletons": "T2, T3, T5, T9, TX and two-device/two-job variants",
           "configurations": "all permutations of usage_patterns / devices / same-step jobs (lists <= 3); reversed creation "
           "order of the objects of each class; 6 identifier assignments (uuid counter offsets); set iteration order as an "
           "explored choice for the first 3 (quick) / 5 (thorough) sets with >= 2 elements met while computing; 4 real "
@@ -135,7 +135,7 @@ from harness import model as M, values as V
 from harness.c19 import base_spec
 class C: symbolic = False
 out = {}
-for sk in ("T3", "T5", "T2d", "T9", "T2c", "T3b"):
+for sk in ("T3", "T5", "T2d", "T9", "T2c", "T3b", "TX"):
     objs = M.build(base_spec(sk), M.Env(C(), {}))
     for name, o in objs.items():
         if hasattr(o, "calculated_attributes"):
@@ -189,7 +189,9 @@ def plan(tier, seed):
         p.append(("config", dict(skeleton="T2d", kind="step_jobs", arg=list(perm))))
     for perm in itertools.permutations(range(2)):
         p.append(("config", dict(skeleton="T5", kind="step_jobs", arg=list(perm))))
-    for sk in ("T3", "T5", "T9", "T2d", "T2c", "T3b", "T7d"):
+    for perm in itertools.permutations(range(3)):
+        p.append(("config", dict(skeleton="TX", kind="patterns", arg=list(perm))))
+    for sk in ("T3", "T5", "T9", "T2d", "T2c", "T3b", "T7d", "TX"):
         p.append(("config", dict(skeleton=sk, kind="creation", arg="reversed")))
         p.append(("config", dict(skeleton=sk, kind="creation", arg=seed + 1)))
         for off in (1000, 2000, 31337, 77777, 123456):
